@@ -298,11 +298,15 @@ def r3_traversal(ctx, prog):
             r.inst("ParsedValue::merge", "reduce() dominates every index_strings call (%d)" % len(idx))
         else:
             r.viol("R3:ParsedValue::merge#reduce-first", "an index_strings call in merge is not preceded by reduce(): unresolved foreign keys would keep unindexed literals", file=b.file, line=b.line)
-    b = prog.body("locale::Locale::make_builder_keys")
-    if b is not None:
-        red = M.call_blocks(b, r"ParsedValue::reduce$")
-        mlv = M.call_blocks(b, r"ParsedValue::make_locale_value$")
-        if red and mlv and all(any(b.dominates(x, i) for x in red) for i in mlv):
+    b0 = prog.body("locale::Locale::make_builder_keys")
+    if b0 is not None:
+        # the function and the closures it owns: within each body that calls make_locale_value, reduce() comes first
+        root = M._root(b0.name)
+        owned = [bb for n2, bb in sorted(prog.bodies.items()) if bb.crate == b0.crate and M.owner_of(prog, n2) == root]
+        sites = [(bb, M.call_blocks(bb, r"ParsedValue::reduce$"), M.call_blocks(bb, r"ParsedValue::make_locale_value$")) for bb in owned]
+        sites = [x for x in sites if x[2]]
+        b = sites[0][0] if sites else b0
+        if sites and all(red and all(any(bb.dominates(x, i) for x in red) for i in mlv) for bb, red, mlv in sites):
             r.inst("Locale::make_builder_keys", "value.reduce() dominates make_locale_value (which indexes)")
         else:
             r.viol("R3:make_builder_keys#reduce-first", "make_locale_value is not preceded by reduce()", file=b.file, line=b.line)
